@@ -33,6 +33,7 @@ type PoolRef struct {
 	Oracle   bool
 	Perp     bool
 	Denoms   []string
+	Weights  []string // the assets' weights, in the order of Denoms
 	ShareDen string
 	Treasury string
 }
@@ -79,6 +80,7 @@ func (w *World) createPool(ctx sdk.Context, creator sdk.AccAddress, oracle bool,
 	ref := PoolRef{Id: id, Addr: p.Address, Oracle: oracle, ShareDen: ammtypes.GetPoolShareDenom(id), Treasury: p.RebalanceTreasury}
 	for _, a := range p.PoolAssets {
 		ref.Denoms = append(ref.Denoms, a.Token.Denom)
+		ref.Weights = append(ref.Weights, a.Weight.String())
 	}
 	w.Names[p.Address] = "pool" + itoa(id)
 	w.Names[p.RebalanceTreasury] = "treasury" + itoa(id)
